@@ -328,7 +328,7 @@ package locate
 //@   prop C10
 //@   may-panic
 //@   requires regionErr != nil
-//@   opaque-callee onNotLeader onRegionNotFound onServerIsBusy OnRegionEpochNotMatch UpdateBucketsIfNeeded markStoreNeedCheck InvalidateCachedRegion InvalidateCachedRegionWithReason onFlashbackInProgress onDataIsNotReady onReadIndexNotReady onMaxTimestampNotSynced invalidateRegion SetCtx SpanFromContext
+//@   opaque-callee onNotLeader onRegionNotFound onServerIsBusy UpdateBucketsIfNeeded markStoreNeedCheck InvalidateCachedRegion InvalidateCachedRegionWithReason onFlashbackInProgress onDataIsNotReady onReadIndexNotReady onMaxTimestampNotSynced invalidateRegion SetCtx SpanFromContext
 //@   ensures stalecmd: regionErr.UndeterminedResult == nil && regionErr.NotLeader == nil && regionErr.DiskFull == nil && regionErr.RecoveryInProgress == nil && regionErr.IsWitness == nil &&
 //@       regionErr.FlashbackInProgress == nil && regionErr.FlashbackNotPrepared == nil && regionErr.RegionNotFound == nil && regionErr.KeyNotInRegion == nil && regionErr.EpochNotMatch == nil &&
 //@       regionErr.BucketVersionNotMatch == nil && regionErr.ServerIsBusy == nil && regionErr.StaleCommand != nil && s.replicaSelector == nil && old(s.Stats) == nil && shouldRetry && err == nil ==>
@@ -336,15 +336,16 @@ package locate
 // Without a replica selector nothing counts attempts: a NotLeader answer is retried only after a region-scheduling
 // back-off, whether or not it carries a leader hint (with a selector the step is onNotLeader's, below).
 // Without a replica selector every retry that onRegionError grants has been paid for with a back-off of some kind (the
-// epoch-not-match case is decided inside RegionCache.OnRegionEpochNotMatch, which is not under contract).
-//@   at return assert paid: s.replicaSelector == nil && old(s.Stats) == nil && regionErr.EpochNotMatch == nil && shouldRetry ==>
+// epoch-not-match case by the contract of RegionCache.OnRegionEpochNotMatch below).
+//@   at return assert paid: s.replicaSelector == nil && old(s.Stats) == nil && shouldRetry && err == nil ==>
 //@       bo.backoffTimes[regionSchedulingKind()] == old(bo.backoffTimes[regionSchedulingKind()]) + 1 ||
 //@       bo.backoffTimes[diskFullKind()] == old(bo.backoffTimes[diskFullKind()]) + 1 ||
 //@       bo.backoffTimes[tikvBusyKind()] == old(bo.backoffTimes[tikvBusyKind()]) + 1 ||
 //@       bo.backoffTimes[tiflashBusyKind()] == old(bo.backoffTimes[tiflashBusyKind()]) + 1 ||
 //@       bo.backoffTimes[staleCmdKind()] == old(bo.backoffTimes[staleCmdKind()]) + 1 ||
 //@       bo.backoffTimes[maxTsKind()] == old(bo.backoffTimes[maxTsKind()]) + 1 ||
-//@       bo.backoffTimes[notInitKind()] == old(bo.backoffTimes[notInitKind()]) + 1
+//@       bo.backoffTimes[notInitKind()] == old(bo.backoffTimes[notInitKind()]) + 1 ||
+//@       bo.backoffTimes[regionMissKind()] == old(bo.backoffTimes[regionMissKind()]) + 1
 //@   ensures notleader: regionErr.UndeterminedResult == nil && regionErr.NotLeader != nil && s.replicaSelector == nil && old(s.Stats) == nil && shouldRetry ==>
 //@       bo.backoffTimes[regionSchedulingKind()] == old(bo.backoffTimes[regionSchedulingKind()]) + 1
 
@@ -429,3 +430,15 @@ package locate
 //@   loop 2 invariant same: oldRegionStore != nil
 //@   loop 1 invariant outer: true
 //@   at call(compareAndSwapStore) assert translated: arg1.workTiKVIdx == leaderIdx && (leaderIdx == 0 || (0 <= leaderIdx && leaderIdx < len(oldRegionStore.accessIndex[tiKVOnly]) && oldRegionStore.accessIndex[tiKVOnly][leaderIdx] == globalStoreIdx))
+
+// An epoch-not-match answer is retried by the sender only when the client's epoch is AHEAD of the store's (the store is
+// slow applying): that retry is paid for with a region-miss back-off. In every other case the caller gets the region
+// error back to re-split on.
+//@ func (*RegionCache) OnRegionEpochNotMatch
+//@   prop C10
+//@   may-panic
+//@   opaque-callee InvalidateCachedRegionWithReason newRegion findElectableStoreID getPeerOnStore switchWorkLeaderToPeer invalidate insertRegionToCache VerID StoreType getStore
+//@   loop 1 invariant l1: bo.backoffTimes[retry.regionMissKind()] == old(bo.backoffTimes[retry.regionMissKind()])
+//@   loop 2 invariant l2: true
+//@   loop 3 invariant l3: true
+//@   ensures paid: result0 && result1 == nil ==> bo.backoffTimes[retry.regionMissKind()] == old(bo.backoffTimes[retry.regionMissKind()]) + 1
